@@ -184,6 +184,23 @@ class RowSum:
     return (state[0], state[1])
 
 
+class RowMin:
+  """A user aggregate whose state is a bare number: the smallest value seen (10**9 before any row). A partial state of
+  exactly 0 is an ordinary value here, not the neutral element."""
+
+  def create_state(self):
+    return 10**9
+
+  def update_state(self, state, val):
+    return min(state, int(val))
+
+  def merge_states(self, states):
+    return min([10**9] + list(states))
+
+  def get_result(self, state):
+    return state
+
+
 class Counting:
   """Stateful callable for lazy-expression tests: counts constructions and calls."""
   constructed = 0
